@@ -323,6 +323,16 @@ func (h *tbHist) tryOpen() string {
 	outcome := "nothing"
 	ch := -1
 	if opened {
+		// the first hand state has been published (the updater goroutine is done with it)
+		waitFor(500*time.Millisecond, func() bool {
+			for _, s := range h.rig.snapsFrom(preSnaps) {
+				if s.State.GameState != nil && s.State.GameCount == pre+1 {
+					return true
+				}
+			}
+			return false
+		})
+		time.Sleep(300 * time.Microsecond)
 		outcome = "opened"
 		sm := h.rig.hk.SeatManager()
 		if !wasInit {
@@ -444,6 +454,8 @@ func (h *tbHist) playHand() bool {
 	if !done {
 		// closed / released tables and unhandled situations end here: give the handler a moment, then look
 		time.Sleep(3 * time.Millisecond)
+	} else {
+		time.Sleep(1500 * time.Microsecond) // Setup writes the game count first and the participants after
 	}
 	lt := h.table()
 	out := "nothing"
